@@ -38,6 +38,8 @@ INSTANCE XIBC
 tvars == <<l, vars>>
 
 SetOf(s) == {s[i] : i \in DOMAIN s}
+RECURSIVE Sum0(_, _)
+Sum0(f, S) == IF S = {} THEN 0 ELSE LET x == CHOOSE y \in S : TRUE IN f[x] + Sum0(f, S \ {x})
 Tr(x) == <<x[1], x[2], x[3]>>
 Pkt(x) == [src |-> x[1], dst |-> x[2], seq |-> x[3], kind |-> x[4], amt |-> x[5], call |-> x[6], fee |-> x[7], mut |-> 0]
 Unknown(t) == [src |-> t[1], dst |-> t[2], seq |-> t[3], kind |-> "?", amt |-> 0, call |-> "?", fee |-> 0, mut |-> 9]
@@ -131,6 +133,12 @@ C04_SendStep(k) == (ln(k).ev = "Send" /\ ln(k).res = "ok") =>
    /\ commits'[c] = commits[c] \cup {p}            \* exactly one commitment: the hash of the emitted bytes ("P")
    /\ ~(\E q \in commits[c] : T(q) = T(p))
 C04_FailedSendNoChange(k) == (ln(k).ev = "Send" /\ ln(k).res # "ok") => Unchanged(k)
+(* C04: a failed send locks nothing.  Origin tokens held by the endpoint are exactly what outTokens records, and  *)
+(* (in these behaviours wrapped tokens are only minted and burned) no wrapped token is ever held by the endpoint,  *)
+(* packet or agent contract                                                                                         *)
+C04_NoStrayEscrow(k) == \A c \in Chains :
+   /\ St(k, c).endp = Sum0([d \in Chains \ {c} |-> St(k, c).out[d]], Chains \ {c})
+   /\ \A d \in Chains \ {c} : St(k, c).wlock[d] = 0
 C04_SeqOnlyBySend(k) == \A c \in Chains : (seq'[c] # seq[c] \/ cseq'[c] # cseq[c]) => (ln(k).ev = "Send" /\ ln(k).res = "ok" /\ ActChain(k) = c)
 
 (* C05 *)
@@ -166,6 +174,7 @@ Judge(k) ==
   /\ Report(k, "C01.MarksExact", MarksExact')
   /\ Report(k, "C01.ReceivedWasSent", ReceivedWasSent')
   /\ Report(k, "C04.SeqAgree", SeqAgree')
+  /\ Report(k, "C04.NoStrayEscrow", C04_NoStrayEscrow(k))
   /\ Report(k, "C04.NoGap", NoGap')
   /\ Report(k, "C04.CommitIsSent", CommitIsSent')
   /\ Report(k, "C05.OneAckPerReceipt", OneAckPerReceipt')
